@@ -201,7 +201,7 @@ public:
      */
     template<typename T>
     T to() const {
-        return T(&payload_[0], static_cast<uint32_t>(payload_.size()));
+        return T(payload_.empty() ? 0 : &payload_[0], static_cast<uint32_t>(payload_.size()));
     }
     
     /**
